@@ -209,6 +209,7 @@ func (sm *SessionManager) GetSession(r *http.Request) (*SessionData, error) {
 	sessionData := sm.sessionPool.Get().(*SessionData)
 	sessionData.request = r
 	sessionData.staleChunks = nil
+	sessionData.savedChunks = nil
 
 	var err error
 	sessionData.mainSession, err = sm.getOrNewSession(r, mainCookieName)
@@ -330,6 +331,11 @@ type SessionData struct {
 	// staleChunks holds chunk cookies of a previously stored token that were
 	// expired in memory only; Save deletes those the new token does not reuse.
 	staleChunks []*sessions.Session
+
+	// savedChunks holds the chunk cookies an earlier Save of this request has
+	// already written to the response; a later Save deletes those the token
+	// stored by then no longer uses.
+	savedChunks []*sessions.Session
 }
 
 // Save persists all parts of the session (main, access token, refresh token, and any chunks)
@@ -384,11 +390,13 @@ func (sd *SessionData) Save(r *http.Request, w http.ResponseWriter) error {
 
 	// Delete the chunk cookies of a previously stored, longer token that the
 	// current token does not overwrite; otherwise they would be appended to the
-	// new token's chunks when the session is read back.
+	// new token's chunks when the session is read back. The same holds for chunk
+	// cookies an earlier Save of this request wrote for a token replaced since.
 	expiredOptions := *options
 	expiredOptions.MaxAge = -1
-	for i, session := range sd.staleChunks {
-		if sd.isCurrentChunk(session) || containsSession(sd.staleChunks[:i], session) {
+	stale := append(sd.staleChunks, sd.savedChunks...)
+	for i, session := range stale {
+		if sd.isCurrentChunk(session) || containsSession(stale[:i], session) {
 			continue
 		}
 		session.Options = &expiredOptions
@@ -397,6 +405,13 @@ func (sd *SessionData) Save(r *http.Request, w http.ResponseWriter) error {
 		}
 	}
 	sd.staleChunks = nil
+	for _, chunks := range []map[int]*sessions.Session{sd.accessTokenChunks, sd.refreshTokenChunks} {
+		for _, session := range chunks {
+			if !containsSession(sd.savedChunks, session) {
+				sd.savedChunks = append(sd.savedChunks, session)
+			}
+		}
+	}
 
 	return nil
 }
